@@ -37,7 +37,7 @@ PROVED = {
  "C11": "proved: dijkstra and astar (weight 1, consistent heuristic) real path AND optimality / infeasibility certificate, bfs real path AND minimal-length certificate by levels, dfs real path AND completeness certificate (INFEASIBLE only with a closed goal-free visited set), bellman_ford distance certificate, reconstruct_path, _reconstruct_indexed; no arithmetic on +-inf under finite weights",
  "C13": "proved: kruskal structure via the UnionFind contract, prim grows one tree of input edges with objective = weight sum, check_positive, check_edge_nodes (minimality: bounded only)",
  "C15": "proved: kcore filter (kcore_decomposition by assumed contract)",
- "C16": "proved: solve_knapsack (indices distinct and in range, objective = sum of values, weight test at every OPTIMAL return, DP value = the knapsack recursion KN, integer data unscaled), _to_int_capacity, check_non_negative; Bellman's principle is a paper lemma; solve_bin_pack bounded only",
+ "C16": "proved: solve_knapsack (indices distinct and in range, objective = sum of values, weight test at every OPTIMAL return, DP value = the knapsack recursion KN, integer data unscaled), _to_int_capacity, check_non_negative; Bellman's principle is a paper lemma; solve_bin_pack structural clauses (every item in one bin 0..k-1, no bin overfull beyond 1e-9, load = capacity - remaining, status rule); its 11/9 bound and minimality claims bounded only",
  "C17": "proved: bp._most_fractional, bp._build_solution",
  "C18": "proved: job_shop._dispatch (valid and complete schedule for every rule and seed), _compute_makespan",
  "C19": "proved: Evaluator, anneal, tabu_search, lns, alns, evolve (book-keeping for all objectives, callbacks, seeds, iteration counts)",
